@@ -102,7 +102,7 @@ Section Cor.
   Proof.
     intros (HO & _). pose proof HO as (H1 & H2 & H3 & H4).
     destruct (tail (fst c)) as [b|] eqn:Et.
-    - destruct (chain_from (fst c) HO (S b) b ltac:(lia) (H3 b Et)) as (ids & C & _).
+    - destruct (chain_from (fst c) HO (S b) b ltac:(lia) (H3 b eq_refl)) as (ids & C & _).
       exists ids. split; [exact C|]. intros d e Hd E. apply (H2 d e); auto. eapply Chain_lt; eauto.
     - exists []. split; [constructor|]. intros b d [].
   Qed.
@@ -147,7 +147,8 @@ Proof. vm_compute. auto. Qed.
    clear, real block size *)
 Definition example_case : case :=
   ([pushes 66; [CData; CClear]; [CPush 7; CEmpty]],
-   (repeat 0 250 ++ [1; 2; 2; 1; 0; 0; 1; 2; 0; 1; 1; 2; 0; 0; 1; 2; 2; 0; 1; 1; 0; 2; 1; 0; 0; 1; 1; 1; 2; 0])%N).
+   (repeat 0 250 ++ [1; 2; 2; 1; 0; 0; 1; 2; 0; 1; 1; 2; 0; 0; 1; 2; 2; 0; 1; 1; 0; 2]
+    ++ repeat 0 20 ++ repeat 2 8 ++ repeat 1 14)%N).
 
 Lemma example_ok : known_class example_case = None /\ spec_ok example_case (run_case example_case) = true.
 Proof. vm_compute. auto. Qed.
